@@ -89,7 +89,7 @@ def gen_slot(kinds=('g',)):
 # ------------------------------------------------------------------ random strings
 POOL_ASCII = list("abcXYZ019") + list("-._~!$'()*,;:") + list(" \"<>%@?#`{}/+&=|\\^[]") + ['\t', '\x01', '\x7f']
 POOL_UNI = ['é', 'Æ', 'ß', 'ǅ', 'İ', '日', '𝄞', '́', 'K', 'ſ', 'Σ', 'ΑΣ', 'ς']
-ODD = ['g:a', 'org.apache.commons:io', ':a', 'g:', 'a:b:c', 'v2', 'x ', ' x', 'x\t', '@scope/name', '@a/b', 'a/b', '/a', 'a/', '@', '@x', 'x@y', 'İ_b', 'İ', 'École_Δ', 'Ångström.Units', '...', '....', '.a', 'a.', '..a', '. .', '%', '+', 'a b', '.', '..', '-', '_', '%2F', 'a%zz', '%%', '\\', 'A', 'é', ':', ',', 'a:b,c:d']
+ODD = ['a/b/c', '@scope/pkg/dist', 'Contoso.Élan', 'MyÉlan', 'Requests[Security]', '[x]', 'g:a', 'org.apache.commons:io', ':a', 'g:', 'a:b:c', 'v2', 'x ', ' x', 'x\t', '@scope/name', '@a/b', 'a/b', '/a', 'a/', '@', '@x', 'x@y', 'İ_b', 'İ', 'École_Δ', 'Ångström.Units', '...', '....', '.a', 'a.', '..a', '. .', '%', '+', 'a b', '.', '..', '-', '_', '%2F', 'a%zz', '%%', '\\', 'A', 'é', ':', ',', 'a:b,c:d']
 def rstr(rng, lo=1, hi=6, exclude=''):
     if lo >= 1 and rng.random() < 0.12:
         o = rng.choice(ODD)
@@ -435,7 +435,7 @@ def gen_names(rng, tier):
         yield from cases(chr(cp) + '_-')
 
 # ------------------------------------------------------------------ G-types: type strings through the builder, every built-in carrier
-ODD_TYPES = ['\u212a8s', 'K8s', '7zip', '3D', '0', '9', 'ſ', 'İ', 'é', 'É', 'café', 'Über', 'ß', 'Σ', 'py٣', '²', 'Ⅻ', '中', 'a\u0301', 'T', 'Tt', 'tT', 'Maven', 'NuGet', 'c++X', 'a.b', '.', '+', '-', 'a-', ' t', 't ', 't\t', 't/n', 't%41', '']
+ODD_TYPES = ['Np m', 'goLang!', 'A/b', 'NuG\u00e9t', 'aB c', 'Zz_', '\u212a8s', 'K8s', '7zip', '3D', '0', '9', 'ſ', 'İ', 'é', 'É', 'café', 'Über', 'ß', 'Σ', 'py٣', '²', 'Ⅻ', '中', 'a\u0301', 'T', 'Tt', 'tT', 'Maven', 'NuGet', 'c++X', 'a.b', '.', '+', '-', 'a-', ' t', 't ', 't\t', 't/n', 't%41', '']
 def gen_types(kinds=('g', 's', 'b', 'o')):
     tys = list(ODD_TYPES)
     for c in range(128):
@@ -449,9 +449,9 @@ def gen_types(kinds=('g', 's', 'b', 'o')):
             yield f'B {k} {hx(ty)} {hx("")} -'
 
 # ------------------------------------------------------------------ G-build
-VALS = ['', 'x', 'A/b', '/', 'a//b/', 'a/.../b', '...', '..../x', 'a///b', 'a/////b//c', '1.0/', 'x ', '\u3000x\u3000', 'vv1', 'Vv1', '%41', '..', 'a/../b', 'é', 'a@b?c#d', ' ', 'a&b=c+d', '"<>`{}', 'a:b']
-QKEYS = ['a', 'A', 'b', 'a.b', 'a_b', 'ab', '!', '', 'checksum', 'Checksum', 'repository_url', 'é']
-QVALS = ['', 'x', 'a&b=c', 'sha1:00', 'SHA1:ZZ', 'B:00,a:FF', 'sha1:0', 'a:,b:', 'v w']
+VALS = ['', 'x', 'A/b', '/', 'a//b/', 'docs/%2541', 'a%252Fb', 'docs../img/x.', 'lib./i', 'a/.../b', '...', '..../x', 'a///b', 'a/////b//c', '1.0/', 'x ', '\u3000x\u3000', 'vv1', 'Vv1', '%41', '..', 'a/../b', 'é', 'a@b?c#d', ' ', 'a&b=c+d', '"<>`{}', 'a:b']
+QKEYS = ['a', 'A', 'b', 'a.b', 'a_b', 'ab', '!', '', 'checksum', 'Checksum', 'repository_url', 'é', 'type', 'Z', 'File_Name', 'filename']
+QVALS = ['', 'x', 'a&b=c', 'sha1:00', 'SHA1:ZZ', 'B:00,a:FF', 'sha1:0', 'a:,b:', 'v w', 'sha1:00,', ',sha1:00', 'sha1:', 'jar', 'sha3-256:aa,sha3:bb']
 CSOPS = ['-', f'i.{hx("sha1")}.00ff', f'i.{hx("SHA1")}.-', f'i.{hx("md5")}.0a+i.{hx("MD5")}.0b', f'w.{hx("sha1")}.{hx("zz")}',
          f'w.{hx("sha1")}.{hx("ABC")}', f'i.{hx("ǅ")}.01+i.{hx("ǆ")}.02', f'i.{hx("b")}.00+i.{hx("a")}.ff', f'i.{hx("a")}.00+r.{hx("a")}',
          f'w.{hx("a")}.{hx("AB")}+i.{hx("A")}.cd', f'i.{hx("a,b")}.00']
@@ -510,7 +510,7 @@ def qop_universe():
                 f'eG:{hx(k)}:{hx("+")}']
         for v in QV:
             ops += [f'i:{hx(k)}:{hx(v)}', f'm:{hx(k)}:{hx(v)}', f'X:{hx(k)}:{hx(v)}', f'eo:{hx(k)}:{hx(v)}', f'ew:{hx(k)}:{hx(v)}',
-                    f'ei:{hx(k)}:{hx(v)}', f'em:{hx(k)}:{hx("+")}:{hx(v)}']
+                    f'ei:{hx(k)}:{hx(v)}', f'em:{hx(k)}:{hx("+")}:{hx(v)}', f'eC:{hx(k)}:{hx(v)}']
     ops += [f'tC:{c}' for c in CSOPS[:6]]
     for i in range(3):
         ops += [f'tu:{i}:{hx("t" + str(i))}', f'tug:{i}', f'tud:{i}']
@@ -549,7 +549,7 @@ def gen_qops(rng, nrand):
         yield 'F ' + (','.join(ps) or '-')
 
 # ------------------------------------------------------------------ G-cs
-CALGS = ['Éℂ', 'Ωϒ', 'Д𝐀', 'ℂ', 'aℂ', 'İ', 'éSHA', 'ésha', 'éA', 'éa', 'SHÄ', 'shä', 'GOST-Ё', 'gost-ё', 'sha1', 'SHA1', 'Sha1', 'md5', 'MD5', 'ǅ', 'ǆ', 'Ǆ', 'a:b', '', 'é', 'É', 'b2', 'K', 'a b', 'ΑΣ', 'ασ', 'ας', 'sha512', 'sha512-256', 'sha512.1', 'urn:sha256']
+CALGS = ['sha#1', 'my hash&v=2', 'é%+', 'sha3', 'sha3-256', 'sha', 'md5.alt', 'Éℂ', 'Ωϒ', 'Д𝐀', 'ℂ', 'aℂ', 'İ', 'éSHA', 'ésha', 'éA', 'éa', 'SHÄ', 'shä', 'GOST-Ё', 'gost-ё', 'sha1', 'SHA1', 'Sha1', 'md5', 'MD5', 'ǅ', 'ǆ', 'Ǆ', 'a:b', '', 'é', 'É', 'b2', 'K', 'a b', 'ΑΣ', 'ασ', 'ας', 'sha512', 'sha512-256', 'sha512.1', 'urn:sha256']
 def gen_cs(rng, n):
     for c in CSOPS: yield f'C {c}'
     for _ in range(n):
@@ -614,6 +614,8 @@ def gen_comb(rng, n):
     for _ in range(n):
         s = ''.join(rng.choice(['/', ':', 'a', 'B', '.', '_', '-', 'é', '@', ' ', '%2F', 'v2', 'v'] + EXTRA['chars'][:4]) for _ in range(rng.randint(0, 7)))
         yield f'N {rng.randrange(7)} {hx(s)}'
+    for s in ['Contoso.Élan', 'MyÉlan', 'AÆ', 'aÉ/Bé', 'Requests[Security]', '[x]', 'a[b', 'acme/widget', 'a/b/c/d', '@scope/pkg/dist']:
+        for i in range(7): yield f'N {i} {hx(s)}'
 
 # ------------------------------------------------------------------ G-pair
 def gen_pair(rng, n, kinds=('g', 't', 's', 'b', 'o')):
